@@ -22,6 +22,7 @@ type C15Case struct {
 	Form     string `json:"form"`     // native alias ptrstack ptralias readonly zero zeroalias nil typednil int string cond
 	Opt      string `json:"opt"`      // plain nonest policy
 	Reject   int    `json:"reject"`   // policy: index of the source element the policy rejects (may be >= SrcLen: rejects nothing)
+	DstPrep  string `json:"dstprep,omitempty"` // history of the destination before the transfer: "" (constructor+Push) | reset | remove | insertfront | popfifo
 }
 
 var c15Forms = []string{"native", "alias", "ptrstack", "ptralias", "readonly", "zero", "zeroalias", "nil", "typednil", "int", "string", "cond"}
@@ -54,8 +55,30 @@ func runC15(c C15Case) (st Stats, err error) {
 			cp = c.DstLen + c.CapExtra
 		}
 		dst = newStackOfKind(c.DstKind, cp)
+		// the destination's earlier history must not matter (its backing array may have been re-allocated)
+		switch c.DstPrep {
+		case "reset":
+			dst.Push("junk1", "junk2")
+			dst.Reset()
+		case "remove":
+			dst.Push("junk1")
+			dst.Remove(0)
+		}
 		for i := 0; i < c.DstLen; i++ {
 			dst.Push(tagValue(i + 1))
+		}
+		switch c.DstPrep {
+		case "insertfront":
+			if c.DstLen > 0 {
+				dst.Remove(0)
+				dst.Insert(tagValue(1), 0)
+			}
+		case "popfifo":
+			if c.DstLen > 0 {
+				v, _ := dst.Index(c.DstLen - 1)
+				dst.Remove(c.DstLen - 1)
+				dst.Push(v)
+			}
 		}
 		switch c.Opt {
 		case "nonest":
@@ -221,6 +244,13 @@ func enumC15(tier Tier, yield func(C15Case)) {
 							c.Form = form
 							yield(c)
 						}
+						// destinations with a history (native form)
+						for _, prep := range []string{"reset", "remove", "insertfront", "popfifo"} {
+							c := base
+							c.Form = "native"
+							c.DstPrep = prep
+							yield(c)
+						}
 						// destination-side filters on a native destination
 						c := base
 						c.Form = "native"
@@ -269,6 +299,7 @@ func genC15(t *rapid.T, tier Tier) C15Case {
 		}
 	}
 	c.Reject = rapid.IntRange(0, maxLen+1).Draw(t, "reject")
+	c.DstPrep = rapid.SampledFrom([]string{"", "", "reset", "remove", "insertfront", "popfifo"}).Draw(t, "dstprep")
 	return c
 }
 
@@ -276,7 +307,7 @@ func init() {
 	Register(Def[C15Case]{
 		ID: "C15",
 		Rule: "exhaustive grid source length 0..6 x destination length 0..6 x destination capacity {none, len+0..len+7} x source LIFO/FIFO x source with/without nil elements x " +
-			"12 destination forms (native, alias, pointer to Stack, pointer to alias, read-only, zero Stack, zero alias, nil, typed nil pointer, int, string, Condition) plus no-nesting / rejecting-push-policy destinations; " +
+			"12 destination forms (native, alias, pointer to Stack, pointer to alias, read-only, zero Stack, zero alias, nil, typed nil pointer, int, string, Condition) plus no-nesting / rejecting-push-policy destinations and destinations with a history (Reset-and-refill, Remove, front Insert, remove-and-push: re-allocated backing arrays); " +
 			"plus rapid-generated larger cells (lengths up to 12, thorough 40). Oracle: source snapshot (public getters + VerifDump) identical; true => destination == old content ++ source; " +
 			"too little room / read-only / non-Stack destination => false and destination snapshot identical; destination-side filter dropping an element => false. " +
 			"non-trivial = 0<free<srcLen, or free==srcLen>0, or a destination-side filter drops an element; distinct = distinct cell",
